@@ -11,15 +11,15 @@ CORPUS = os.path.join(L.VERIF, "corpus", "C20")
 
 # requests per family: (quick, thorough)
 BUDGET = {
-    "xilinx": (1300, 26000),
-    "ecp5": (600, 12000),
-    "ice40": (300, 4000),
-    "nx": (300, 5000),
-    "nxosc": (100, 1000),
-    "nxoscfin": (40, 400),
-    "intel": (120, 3000),
-    "gw1n": (300, 6000),
-    "gwosc": (80, 1000),
+    "xilinx": (1300, 13000),
+    "ecp5": (600, 6000),
+    "ice40": (300, 3000),
+    "nx": (300, 3000),
+    "nxosc": (100, 800),
+    "nxoscfin": (40, 300),
+    "intel": (120, 1200),
+    "gw1n": (300, 3000),
+    "gwosc": (80, 600),
 }
 
 
@@ -86,7 +86,9 @@ def tally(ctx, recs, label="random"):
         if r.get("error"):
             dis.append({"kind": "machinery", "what": r["error"], "case": c})
             continue
-        if r["region"]:
+        if r.get("out_of_domain"):
+            ctx.cov.count("out-of-domain (refused by the helper's range assert):" + fam)
+        elif r["region"]:
             p["region"] += 1
             ctx.cov.count("known-defect-region:" + r["region"])
         elif r["borderline"]:
@@ -146,6 +148,44 @@ def correspond(ctx):
     return dis
 
 
+def probe_gw5a_odiv():
+    """GW5APLL (not modelled): odiv = round(vco/f) is never checked against the ODIV range 1..128."""
+    from migen import Signal
+    from litex.soc.cores.clock.gowin_gw5a import GW5APLL
+    g = GW5APLL("GW5A-25", "GW5A-LV25MG121NES")
+    g.register_clkin(Signal(), 50e6)
+    g.create_clkout(L.mk_cd(0), 5e6, with_reset=False)
+    try:
+        c = g.compute_config()
+    except Exception as e:
+        return False, "refused: %r" % e
+    return not (1 <= c["odiv0"] <= 128), "50 MHz in, 5 MHz out -> odiv0=%s" % c["odiv0"]
+
+
+def probe_gw1n_same_pin():
+    """GW1NPLL: two requests resolving to the same primitive pin overwrite each other silently."""
+    from migen import Signal
+    from migen.fhdl.specials import Instance
+    from litex.soc.cores.clock.gowin_gw1n import GW1NPLL
+    g = GW1NPLL("GW1NR-9C", "GW1NR-LV9QN88PC6/I5")
+    g.register_clkin(Signal(), 27e6)
+    g.create_clkout(L.mk_cd(0), 108e6, with_reset=False)
+    g.create_clkout(L.mk_cd(1), 108e6, with_reset=False)
+    try:
+        g.finalize()
+    except Exception as e:
+        return False, "refused: %r" % e
+    driven = set()
+    for sp in g.get_fragment().specials:
+        if isinstance(sp, Instance) and sp.of in ("rPLL", "PLLVR"):
+            driven = {id(it.expr) for it in sp.items if isinstance(it, Instance.Output)}
+    undriven = [i for i, (clk, _, _, _) in g.clkouts.items() if id(clk) not in driven]
+    return bool(undriven), "27 MHz in, two 108 MHz outputs: clock(s) %s not connected to any PLL pin" % undriven
+
+
+DIRECT_PROBES = {"C20-gw5a-odiv-unchecked": probe_gw5a_odiv, "C20-gw1n-same-pin-overwrite": probe_gw1n_same_pin}
+
+
 def probes(ctx):
     """Replay the witness of every LISTED finding (fixed ones must be accepted and valid; open ones are reported while
     the real code still shows the defect).  Ids not present in known_findings.json are not probed."""
@@ -165,6 +205,14 @@ def probes(ctx):
             fails = r.get("region") == fid
             what = "status=%s region=%s" % (r["status"], r.get("region"))
         out.append((fid, fails, "%s: %s" % (j["file"], what)))
+    L.fast_tracer()
+    for fid, fn in DIRECT_PROBES.items():
+        if fid in listed:
+            try:
+                fails, what = fn()
+            except Exception as e:
+                fails, what = True, "probe raised %r" % e
+            out.append((fid, fails, what))
     return out
 
 
